@@ -69,12 +69,19 @@ static void case_range(Rng&, uint64_t index)
 				return J().i("min", mn).i("max", mx).i("step", st).vec("Range", dv);
 			});
 		}
-	if(mn >= 0)
 	{
-		std::vector<int> r = Range(mn), e;
-		for(int i = 0; i < mn; i++)
-			e.push_back(i);
-		require("range-single-argument-counts-from-zero", r == e, [&] { return J().i("max", mn); });
+		// the one-argument form is Range(0, max): ascending for max > 0, descending (0, -1, ..., max+1) for max < 0, empty for 0
+		std::vector<int> r = Range(mn), e, two = Range(0, mn);
+		if(mn >= 0)
+			for(int i = 0; i < mn; i++)
+				e.push_back(i);
+		else
+			for(int i = 0; i > mn; i--)
+				e.push_back(i);
+		require("range-single-argument-counts-from-zero", r == e && r == two, [&] {
+			std::vector<double> dv(r.begin(), r.end());
+			return J().i("max", mn).vec("Range(max)", dv);
+		});
 	}
 }
 
